@@ -1,5 +1,5 @@
 (* C09 — WEP and WPA2 (TKIP/CCMP) decryption recovers exactly the plaintext, safely. *)
-From LT Require Import Base.Prelude Base.CInt Model.Checksum Model.AES Model.Wifi Proofs.Wifi.
+From LT Require Import Base.Prelude Base.CInt Model.Checksum Model.AES Model.Wifi Proofs.Wifi Proofs.Crc.
 Local Open Scope Z_scope.
 
 (* memory safety: for EVERY frame body of any length (and any key material, header, block cipher) the decryption code
@@ -45,6 +45,19 @@ Theorem C09_wep_needs_icv : forall pload pw m, wep_decrypt pload pw = Ok (Some m
               icv_ok buf (zlen pload - 8) = Ok true /\ m = zfirstn (zlen pload - 8) buf.
 Proof. exact wep_accepts_only_valid_icv. Qed.
 Print Assumptions C09_wep_needs_icv.
+
+(* the algebra behind the recorded finding (KNOWN_FINDINGS.txt: TKIP is accepted on the ICV alone): the ICV is the IEEE
+   CRC-32, which is affine over GF(2) -- xor-ing ANY bit pattern d into a protected string changes its ICV by a value that
+   depends on d alone, so the matching ICV patch needs no key.  WEP has this weakness by design; for TKIP it is what the
+   Michael MIC, which libtins does not verify, exists to stop. *)
+Theorem C09_icv_alone_is_malleable : forall a d, Forall (fun x => 0 <= x < 256) a -> Forall (fun x => 0 <= x < 256) d ->
+  length a = length d -> crc32 (xorl a d) = Z.lxor (crc32 a) (crc_delta d).
+Proof. exact crc32_malleable. Qed.
+Print Assumptions C09_icv_alone_is_malleable.
+
+Example C09_icv_malleable_nonvacuous :
+  (crc32 (xorl [170;170;3;0] [0;4;0;0]) = Z.lxor (crc32 [170;170;3;0]) (crc_delta [0;4;0;0])) /\ (crc_delta [0;4;0;0] =? 0) = false.
+Proof. split; vm_compute; reflexivity. Qed.
 
 (* the handshake capturer: messages 1-3 each possibly retransmitted, then message 4 (then retransmissions of it), after
    whatever was collected before: exactly one completion, at message 4, holding this run's four messages *)
